@@ -437,7 +437,13 @@ func (r *runner) judge(out *outcome, l layoutSpec, q *query, res *node.QueryResu
 			}
 		}
 		sort.Strings(kept)
-		problem, ties, viaEmpty := checkKept(q, kept, solid, r.emptyGroups(q, base.Full)+lenientGroups)
+		visibleLenient := 0
+		for g := range got {
+			if es := q.exp.Series[g]; es != nil && lenientOnly(es) {
+				visibleLenient++
+			}
+		}
+		problem, ties, kind := keptVerdict(q, kept, solid, visibleLenient, r.emptyGroups(q, base.Full)+lenientGroups)
 		if ties {
 			r.res.count("limited_runs_where_ties_or_missing_order_left_a_choice", 1)
 		}
@@ -445,7 +451,10 @@ func (r *runner) judge(out *outcome, l layoutSpec, q *query, res *node.QueryResu
 		case problem != "":
 			out.Problem = problem
 			out.Class = "C12/order-by-limit/kept-groups/" + lk
-		case viaEmpty:
+		case kind == "lenient":
+			out.Problem = fmt.Sprintf("kept groups %v (limit %d, %d groups with data): %d result slots are held by visible groups whose only values are binary expressions evaluated with an operand without data", kept, q.Q.Limit, len(solid), visibleLenient)
+			out.Class = lenientSlotClass
+		case kind == "empty":
 			out.Problem = fmt.Sprintf("kept groups %v are only explained by groups without data in the range holding result slots (limit %d, %d groups with data)", kept, q.Q.Limit, len(base.Full))
 			out.Class = "C12/order-by-limit/groups-without-data-hold-result-slots"
 		}
@@ -866,11 +875,19 @@ func (r *runner) classifyIsolated(l layoutSpec, q *query, o *outcome, holdings [
 				empties++
 			}
 		}
-		problem, _, viaEmpty := checkKept(q, kept, full2, empties+lenientGroups)
+		visibleLenient := 0
+		for g := range got {
+			if es := exp.Series[g]; es != nil && lenientOnly(es) {
+				visibleLenient++
+			}
+		}
+		problem, _, kind := keptVerdict(q, kept, full2, visibleLenient, empties+lenientGroups)
 		ds := node.Compare(sub, res.ResultSet, q.Q.GroupBy, node.CompareOptions{})
 		switch {
-		case problem == "" && len(ds) == 0 && !viaEmpty:
+		case problem == "" && len(ds) == 0 && kind == "":
 			o.Class = class + "/limited-result-is-the-answer-without-that-leaf"
+		case problem == "" && len(ds) == 0 && kind == "lenient":
+			o.Class = lenientSlotClass
 		case problem == "" && len(ds) == 0:
 			// over the answering leaves' data the kept set still needs groups without data in result slots
 			o.Class = "C12/order-by-limit/groups-without-data-hold-result-slots"
@@ -1389,9 +1406,21 @@ func (r *runner) runBaseline() map[int]*baseEntry {
 					}
 				}
 				sort.Strings(kept)
-				problem, _, viaEmpty := checkKept(q, kept, solid, r.emptyGroups(q, be.Full)+lenientGroups)
+				visibleLenient := 0
+				for g := range got {
+					if es := q.exp.Series[g]; es != nil && lenientOnly(es) {
+						visibleLenient++
+					}
+				}
+				problem, _, kind := keptVerdict(q, kept, solid, visibleLenient, r.emptyGroups(q, be.Full)+lenientGroups)
 				diffs := diffMaps(got, be.Full, true, r.freeCell(q))
-				if viaEmpty && problem == "" && len(diffs) == 0 {
+				viaEmpty := kind == "empty"
+				if kind == "lenient" && problem == "" && len(diffs) == 0 {
+					r.res.violation(lenientSlotClass,
+						fmt.Sprintf("data set %d: %s on one shard, one leaf: kept groups %v (limit %d, %d groups with data): result slots are held by visible groups whose only values are binary expressions evaluated with an operand without data",
+							r.ds.Index, q.SQLText, kept, q.Q.Limit, len(solid)),
+						map[string]interface{}{"sql": q.SQLText, "full": canonOf(be.Full, be.Header), "got": canonOf(got, be.Header), "seed": r.seed, "data_set": r.ds.Index})
+				} else if viaEmpty && problem == "" && len(diffs) == 0 {
 					r.res.violation("C12/order-by-limit/groups-without-data-hold-result-slots",
 						fmt.Sprintf("data set %d: %s on one shard, one leaf: kept groups %v are only explained by groups without data in the range holding result slots (limit %d, %d groups with data)",
 							r.ds.Index, q.SQLText, kept, q.Q.Limit, len(be.Full)),
